@@ -153,6 +153,7 @@ func (p *Pool) backgroundHealthCheck() {
 			ticker.Stop()
 			return
 		case <-ticker.C:
+			verifPoint("pool:health-tick")
 			p.checkIdleConnsHealth()
 			p.checkMinConns()
 		}
